@@ -347,16 +347,21 @@ def tieAll (coll : List (Int × List Int)) (x : List R) : List R :=
 
 def dedupInt (l : List Int) : List Int := l.foldl (fun acc a => if acc.contains a then acc else acc ++ [a]) []
 
+/-- one round of the offset loop, l.1671-1673: `for i in trac: try: x[i] += offset except IndexError: pass`
+(`trac` is the SET of the tracking indices of the round, l.1670: every index occurs once, however many pairs list it) -/
+def offsetRound [Add R] (offset : R) (trac : List Int) (x : List R) : List R :=
+  trac.foldl (fun xp i => match getPy xp i with
+    | some v => setPy xp i (v + offset)
+    | none => xp) x
+
 /-- the `while pairs:` offset loop (l.1667-1675); `fuel` bounds it (a cyclic mask never terminates in the code) -/
 def offsetLoop [Add R] (offset : R) : Nat → List (Int × Int) → List R → Except Err (List R)
   | 0, pairs, x => if pairs.isEmpty then .ok x else .error .hang
   | fuel + 1, pairs, x =>
     if pairs.isEmpty then .ok x else
-    let trac := dedupInt (pairs.map (·.2))
-    let x' := trac.foldl (fun xp i => match getPy xp i with
-      | some v => setPy xp i (v + offset)
-      | none => xp) x
-    let indx := trac.filter (fun t => (pairs.map (·.1)).contains t)
+    let trac := dedupInt (pairs.map (·.2))                               -- `trac = set(trac)` l.1670
+    let x' := offsetRound offset trac x
+    let indx := trac.filter (fun t => (pairs.map (·.1)).contains t)      -- `trac.intersection(indx)` l.1674
     offsetLoop offset fuel (pairs.filter (fun m => indx.contains m.1)) x'
 
 def imposeAs [Add R] (mask : List (Int × Int)) (offset : R) (x : List R) : Except Err (List R) :=
